@@ -93,14 +93,14 @@ def build(case):
     period = timedelta(microseconds=p)
     ch = Broadcast[Sample[Quantity]](name="c09")
     mw = MovingWindow(size=cap * period, resampled_data_recv=ch.new_receiver(),
-                      input_sampling_period=period, align_to=dt(a))
+                      input_sampling_period=period, align_to=dt(a, zone(case.get("atz"))))
     if case["kind"] == "mw":
         n = mw.capacity
         mw._buffer._buffer[:] = [float(JUNK - i) for i in range(n)]
     else:
         init = [float(JUNK - i) for i in range(cap)]
         cont = init if case["kind"] == "list" else np.array(init, dtype=float)
-        mw._buffer = ORB(cont, period, dt(a))
+        mw._buffer = ORB(cont, period, dt(a, zone(case.get("atz"))))
     return mw
 
 
@@ -126,24 +126,45 @@ def fill_expect(f):
 CRASH_VAL = -987654321     # rendered to Coq for an unexpected exception: no model answer ever equals it
 
 
+def scribble(res):
+    """The docstring of window() promises a copy the caller may modify: modify it.  Whatever is
+    returned is overwritten / extended in place; no later answer may be affected by that."""
+    np = _imports()[0]
+    if isinstance(res, list):
+        if res:
+            res[0] = -4244.0
+        res.append(-4242.0)
+        res.extend([-4243.0, -4243.0])
+    elif isinstance(res, np.ndarray):
+        if res.size and res.flags.writeable:
+            res += 5000.0
+            res[:] = -4245.0
+
+
+def _win(res):
+    out = canon_list(res)
+    scribble(res)
+    return out
+
+
 def run_query(mw, q, via_buffer, tz=None):
     """One query -> canonical result: list of cells / one cell / 'IndexError' / 'CRASH:<exception>'."""
     k = q["k"]
     try:
         if k == "wi":
             tgt = mw._buffer if (via_buffer and not q.get("facade")) else mw
-            return canon_list(tgt.window(q["s"], q["e"], fill_value=fillv(q["fill"])))
+            return _win(tgt.window(q["s"], q["e"], fill_value=fillv(q["fill"])))
         if k == "wt":
             tgt = mw._buffer if (via_buffer and not q.get("facade")) else mw
-            return canon_list(tgt.window(dt(q["s"], tz), dt(q["e"], tz), fill_value=fillv(q["fill"])))
+            return _win(tgt.window(dt(q["s"], tz), dt(q["e"], tz), fill_value=fillv(q["fill"])))
         if k == "wm":   # mixed index / datetime
             s = dt(q["s"], tz) if q["sd"] else q["s"]
             e = q["e"] if q["sd"] else dt(q["e"], tz)
-            return canon_list(mw.window(s, e))
+            return _win(mw.window(s, e))
         if k == "si":   # mw[s:e] with indices
-            return canon_list(mw[q["s"]:q["e"]])
+            return _win(mw[q["s"]:q["e"]])
         if k == "st":   # mw[ts:ts]
-            return canon_list(mw[dt(q["s"], tz):dt(q["e"], tz)])
+            return _win(mw[dt(q["s"], tz):dt(q["e"], tz)])
         if k == "ai":
             return canon_val(mw.at(q["i"]) if q.get("via", "at") == "at" else mw[q["i"]])
         if k == "at":
@@ -485,6 +506,9 @@ DST_ZONES = [("Europe/Berlin", [1698541200, 1679792400]), ("America/New_York", [
              ("Australia/Lord_Howe", [1680363000, 1696087800]), ("+02:00", [1698541200]), ("-09:30", [1679792400])]
 
 
+ALIGN_ZONES = ["+05:30", "-09:30", "+05:45", "+00:17", "-03:30", "Asia/Kolkata", "Europe/Berlin", "Australia/Lord_Howe"]
+
+
 def gen_case(rng, nq_lo=2, nq_hi=4, maxlen=40, caps=None):
     cap = rng.choice(caps or [1, 1, 2, 2, 3, 3, 3, 4, 4, 5, 5, 6, 7, 8])
     p = rng.choice(PERIODS)
@@ -495,6 +519,12 @@ def gen_case(rng, nq_lo=2, nq_hi=4, maxlen=40, caps=None):
     n = min(n, maxlen)
     style = rng.choice(["mixed", "mixed", "mixed", "inorder", "gappy", "jumpy"])
     t_first = T0
+    if rng.random() < 0.18:
+        # align_to given as an aware datetime in a non-UTC zone (construction path of MovingWindow and of
+        # the buffer) with periods the zone's offset is NOT a multiple of: the grid is defined by the INSTANT
+        case["atz"] = rng.choice(ALIGN_ZONES)
+        p = case["period"] = rng.choice([3_600_000_000, 3_600_000_000, 7_000_000, 700_000, 900_000_000, 1_000_000])
+        a = case["align"] = rng.choice([0, 123_457, -777_001, T0 - 86_400_000_000 - (T0 % 86_400_000_000) - 19_800_000_000])
     if rng.random() < 0.15:
         # datetimes stamped in another zone (fixed offset, or a zone with DST rules) while the window
         # slides through a DST transition: the same instants must give the same results as in UTC
@@ -516,7 +546,7 @@ def gen_case(rng, nq_lo=2, nq_hi=4, maxlen=40, caps=None):
         case["steps"].append(rt_step())
     for _ in range(n):
         if newest is None:
-            k = (t_first - a) // p + (rng.randrange(0, 50) if t_first == T0 else 0)
+            k = (t_first - a) // p + (rng.randrange(0, 50) if (t_first == T0 and p < 100_000_000) else 0)
         else:
             r = rng.random()
             if style == "inorder":
@@ -640,6 +670,28 @@ def boundary_cases():
                     steps.append({"op": "u", "t": t, "v": 100 + i, "q": qs})
                 out.append({"cap": 8, "period": pz, "align": 0, "kind": kind, "tz": zname, "qtz": qtz,
                             "base": tr * 1_000_000, "steps": steps})
+    # align_to = local midnight in a zone whose offset is not a whole number of periods; hourly slots,
+    # samples on the local full hour (construction path of MovingWindow and of the plain buffer)
+    ph = 3_600_000_000
+    for atz, off_s in (("+05:30", 19800), ("-09:30", -34200), ("Asia/Kolkata", 19800)):
+        a0 = (T0 // 86_400_000_000) * 86_400_000_000 - off_s * 1_000_000      # local midnight, as an instant
+        for kind, capn in (("mw", 24), ("list", 6), ("numpy", 6), ("mw", 5)):
+            steps = []
+            for i in range(capn + 3):
+                t = a0 + i * ph
+                steps.append({"op": "u", "t": t, "v": 100 + i, "q": [
+                    {"k": "wi", "s": None, "e": None, "fill": "nan"}, {"k": "at", "t": t}, {"k": "at", "t": t - ph},
+                    {"k": "wt", "s": t - 3 * ph, "e": t + ph, "fill": 0}]})
+            out.append({"cap": capn, "period": ph, "align": a0, "atz": atz, "kind": kind, "base": a0, "steps": steps})
+    # a caller that modifies what window() returned (empty and non-empty results), then asks again
+    e1 = {"k": "wt", "s": a + (B - 30) * p, "e": a + (B - 20) * p, "fill": "nan"}      # covers no slot
+    e2 = {"k": "wt", "s": a + (B + 2) * p, "e": a + (B + 2) * p, "fill": "nan"}        # start == end
+    f1 = {"k": "wt", "s": a + (B + 1) * p, "e": a + (B + 4) * p, "fill": "nan"}
+    for kind in ("list", "numpy", "mw"):
+        out.append({"cap": 5, "period": p, "align": a, "kind": kind, "steps": [
+            {"op": "u", "t": a + B * p, "v": None, "q": [dict(e1), dict(f1), dict(e1), {"k": "wi", "s": None, "e": None, "fill": 0}]},
+            U(1, 11, q=[dict(e1), dict(e2), dict(f1), dict(e1), dict(e2), {"k": "si", "s": 3, "e": 1}, {"k": "si", "s": 3, "e": 1}]),
+            U(2, 12), U(3, 13, q=[dict(f1), dict(e1), dict(f1), dict(e2), {"k": "wi", "s": 4, "e": 2, "fill": 1}, dict(e1)])]})
     # count_covered with a period that is not a binary fraction (3 * 0.1 s // 0.1 s)
     p = 100_000
     B = T0 // p
@@ -826,6 +878,8 @@ class RingStream(Stream):
 
     def run_impl(self, case):
         o = getattr(self, "_cache", {}).pop(id(case), None)
+        if isinstance(case, dict) and case.get("debug_log"):
+            return run_history(case)     # flagged by the driver after gen(): run here, inside its debug-logging context
         return o if o is not None else run_history(case)
 
     def to_coq(self, case, obs):
@@ -848,7 +902,7 @@ class RingStream(Stream):
 
     def labels(self, case, obs):
         out = [f"cap={case['cap']}", f"period_us={case['period']}", f"kind={case['kind']}",
-               f"align={'epoch' if case['align'] == 0 else 'offset'}", f"tz={case.get('tz', 'utc')}",
+               f"align={'epoch' if case['align'] == 0 else 'offset'}", f"tz={case.get('tz', 'utc')}", f"align_tz={case.get('atz', 'utc')}",
                f"updates={min(10 * (len(case['steps']) // 10), 40)}+"]
         p, a, cap = case["period"], case["align"], obs["cap"]
         newest = None
